@@ -185,11 +185,12 @@ class Canon:
 
     def rf(self, e):
         i = e.get_id()
-        r = self.memo.get(i)
-        if r is None:
+        hit = self.memo.get(i)
+        if hit is None:
             r = self._rf(e)
-            self.memo[i] = r
-        return r
+            self.memo[i] = (e, r)  # keep e alive: z3 reuses the ids of collected ASTs
+            return r
+        return hit[1]
 
     def _rf(self, e):
         if z3.is_rational_value(e) or z3.is_int_value(e):
